@@ -197,7 +197,7 @@ class Gen(object):
         if ty == INT:
             return T(om.integer(r.choice((0, 1, 2, 7, 42, 100))), INT)
         if ty == STR:
-            return T(om.string(r.choice(('', 'a', 'hello world', 'x-y'))), STR)
+            return T(om.string(r.choice(('', 'a', 'hello world', 'x-y', ' lead', 'trail ', ' '))), STR)
         if ty == BOOL:
             return T(om.boolean(r.random() < 0.5), BOOL)
         if ty == REAL:
